@@ -333,6 +333,11 @@ def run(tier):
         from harness.filegen import ATTRS
         convert.run_stream(chk, model, bres, rng('C12', 'setters'), 8 if tier == 'quick' else 60, ATTRS, stream='setters')
         convert.run_numberlike(chk, model, bres, rng('C12', 'number-like'), 400 if tier == 'quick' else 4000, ATTRS)
+        # a reference to an object of another logical file cannot be represented (a reader resolves references within
+        # the logical file): refused, for every attribute that can hold an object
+        if bres.ok:
+            from harness.props import c07
+            c07.cross_reference_stream(chk, model, tier, prop='C12')
     finally:
         shutil.rmtree(tmp, ignore_errors=True)
     return finish(chk, bres, THEOREMS,
